@@ -74,6 +74,27 @@ def run(F, chk):
                 ra.violation(key, b.where(site["bb"]),
                              "insertion into UdpManager.%s reachable without passing %s" % (
                                  fld, " and ".join(x for x, ok in (("the !draining edge", ok_d), ("a strict flows.len() < max_flows edge", ok_c)) if not ok)))
+    # ---------------- R-C19-e existing flows continue under saturation / drain
+    re_ = chk.rule("R-C19-e", "T5", "the tracked-flow path is not behind the cap / drain tests", floor=1)
+    fwd = [bi for bi, t in ocd.calls() if callee_of(t) == MGR + "::<E>::forward_on_existing_flow"]
+    if re_.require(fwd, "on_client_datagram: forward_on_existing_flow call not found"):
+        re_.fn(ocd.path)
+        gates = []
+        for bi, f, t, atom in guards.bool_switches(ocd):
+            if atom[0] == "place" and any(fl == "draining" for _, _, fl in proj_fields(atom[1])):
+                gates.append((bi, "draining"))
+            if atom[0] == "cmp":
+                sa, sb = guards.slice_of_operand(ocd, atom[2]), guards.slice_of_operand(ocd, atom[3])
+                if lib.has_field(sa, "UdpManager", "max_flows") or lib.has_field(sb, "UdpManager", "max_flows"):
+                    gates.append((bi, "flows.len() vs max_flows"))
+        dom = [(g, n) for g, n in gates if any(ocd.dominates(g, x) for x in fwd)]
+        key = "%s|existing flows bypass the admission gates" % ocd.path
+        if gates and not dom:
+            re_.ok(key, ocd.where(fwd[0]), "forward_on_existing_flow is reachable without evaluating %s" % sorted({n for _, n in gates}))
+        elif not gates:
+            re_.broke("on_client_datagram: draining / cap tests not found")
+        else:
+            re_.violation(key, ocd.where(fwd[0]), "datagrams of an already tracked flow only reach forward_on_existing_flow after the %s test: under drain or at the cap live flows are shed together with new ones" % sorted({n for _, n in dom}))
     # ---------------- R-C19-b stickiness skeleton -------------------------
     rb = chk.rule("R-C19-b", "T4+T5", "SelectBackend only at admission; backend_addr/backend_id written only in "
                   "on_backend_resolved behind phase==AwaitingBackend", floor=3)
